@@ -247,7 +247,7 @@ const PREDS: [&str; 20] = ["http://e/p", "http://e/q", "http://example.org/ns#na
     "http://e/a:b", "http://e/\u{e9}", "http://e/\u{b7}a", "http://e/\u{10000}", "http://e/p?x=1&y='2'z", "http://www.w3.org/1999/02/22-rdf-syntax-ns#type", "http://www.w3.org/1999/02/22-rdf-syntax-ns#_1",
     "http://www.w3.org/1999/02/22-rdf-syntax-ns#value", "http://e/xmlns", "http://e/x\u{300}y\u{203f}"];
 const NOSPLIT_PREDS: [&str; 7] = ["http://e/", "http://e/123", "urn:1", "http://e/ns#", "http://e/p?x=1", "http://e/p?x=1&y='2'", "http://e/-1."];
-const DATATYPES: [&str; 6] = ["http://www.w3.org/2001/XMLSchema#integer", "http://www.w3.org/1999/02/22-rdf-syntax-ns#XMLLiteral", "http://www.w3.org/1999/02/22-rdf-syntax-ns#HTML", "http://e/dt?a&b'", "http://www.w3.org/2001/XMLSchema#token", "urn:dt"];
+const DATATYPES: [&str; 12] = ["http://www.w3.org/2001/XMLSchema#String", "http://www.w3.org/2001/XMLSchema#STRING", "http://www.w3.org/2001/xmlschema#string", "HTTP://www.w3.org/2001/XMLSchema#string", "http://www.w3.org/2001/XMLSchema#strin", "http://www.w3.org/2001/XMLSchema#strings", "http://www.w3.org/2001/XMLSchema#integer", "http://www.w3.org/1999/02/22-rdf-syntax-ns#XMLLiteral", "http://www.w3.org/1999/02/22-rdf-syntax-ns#HTML", "http://e/dt?a&b'", "http://www.w3.org/2001/XMLSchema#token", "urn:dt"];
 const LANGS: [&str; 7] = ["en", "EN-us", "fr-BE", "de-Latn-DE-1996", "x-private", "zh-Hant", "en-a-bbb"];
 const BAD_LANGS: [&str; 4] = ["e", "abcdefghi", "en-a", "a1"];
 const PIECES: [&str; 40] = ["<", ">", "&", "\"", "'", " ", " ", "  ", "\t", "\n", "\n", "a", "b", "Z", "0", ";", "#", "x", "]", "]]>", "&amp;", "&#32;", "&lt;", "<b>", "</b>", "<!--", "\u{e9}", "\u{1F600}", "\u{10FFFF}", "\u{FFFD}", "\u{D7FF}", "\u{E000}", "\u{85}", "\u{2028}", "\u{A0}", "=", "/", "?", "-", "."];
